@@ -153,11 +153,17 @@ def run_frag(case):
             h.reserved = case["reserved"]
         frame = L.Frame(h, bytes(msg) if case["bytes"] else bytearray(msg))
         try:
-            out["ret"] = net.ctl[src].node.write(frame) if case["via_write"] else net.ctl[src].node.send(h, frame.message)
+            if case.get("multicast"):
+                # multicast(): the type may be given as a one-character string; the frames go to the level address
+                out["ret"] = net.ctl[src].node.multicast(frame.message, case["mtype"], 1)
+            else:
+                out["ret"] = net.ctl[src].node.write(frame) if case["via_write"] else net.ctl[src].node.send(h, frame.message)
         except SimHorizon:
             out["ret"] = "horizon"
         except ValueError:
             out["ret"] = "ValueError"
+        except Exception as e:  # noqa: BLE001
+            out["ret"] = "raised %r" % (e,)
         out["type_after"] = h.message_type
         out["hdr_after"] = (h.from_node, h.to_node, h.frame_id, h.reserved)
         net.settle(500)
@@ -170,6 +176,25 @@ def run_frag(case):
     del net.med.log[:out.get("n0", 0)]
     frames = [f for f in air_frames(net.med, src=str(src))]
     got = [f["pl"] for f in frames]
+    if case.get("multicast"):
+        # a multicast keeps whatever frame id the node's buffer holds: the reference is built with the id seen on air
+        res.label("multicast")
+        res.nontrivial = len(msg) > 24
+        if isinstance(out.get("ret"), str):
+            res.fail("C11/multicast-raises", "multicast(%d bytes, type %r) %s after %d frame(s) on air" % (len(msg), case["mtype"], out["ret"], len(got)))
+            return res
+        fid = rfrag.unpack_header(got[0])[2] if got and len(got[0]) >= 8 else 0
+        want = rfrag.fragment(src, 0o100, fid, typ, msg)
+        if got != want:
+            res.fail("C11/multicast-frames-differ", "multicast(%d bytes, type %r): %d frames on air, reference %d; first difference at frame %d" % (
+                len(msg), case["mtype"], len(got), len(want), next((i for i, (a, b) in enumerate(zip(got, want)) if a != b), min(len(got), len(want)))))
+        ra = rfrag.Reassembler()
+        for g in got:
+            if len(g) >= 8:
+                ra.feed(g)
+        if ra.delivered != [(src, 0o100, fid, typ, msg)]:
+            res.fail("C11/tmrh20-reassembly", "a TMRh20-style receiver does not reassemble the multicast")
+        return res
     want = rfrag.fragment(src, dst, fid, typ, msg)
     if case.get("reserved") and len(msg) <= 24:
         want = [rfrag.pack_header(src, dst, fid, typ, case["reserved"]) + msg]  # an unfragmented frame is the caller's header + message
@@ -314,6 +339,16 @@ def _after_earlier_messages():
                            "nodes": nodes, "bytes": True, "via_write": via_write, "before": before, "reserved": rsv}
 
 
+def _multicast_cases():
+    """multicast() with the type given as int and as one-character str (ASCII and above 127), at the fragment boundaries"""
+    for n in (0, 1, 24, 25, 48, 49, 100, 144):
+        for mtype in (66, "B", "\x80", "\xe9", 0, 127):
+            typ = mtype if isinstance(mtype, int) else ord(mtype)
+            for src, nodes in ((0, [0, 0o1, 0o2]), (0o2, [0, 0o1, 0o2])):
+                yield {"kind": "direct", "msg": bytes((13 * i + n) & 0xFF for i in range(n)).hex(), "type": typ, "mtype": mtype, "id": 0, "src": src, "dst": 0o1,
+                       "nodes": nodes, "bytes": True, "via_write": False, "multicast": True}
+
+
 def _loss_cases(step):
     """a direct write of 30 / 60 / 120 bytes; the first k attempts (k swept past the point where the sender gives up) of
     its first, second or last frame are lost, as packets or as ACKs"""
@@ -331,12 +366,14 @@ def parts(tier):
     if tier == "quick":
         return [Part("headers", "gen", _hdr_strategy, n=3000),
                 Part("fragment-attempts-lost-sweep", "enum", _loss_cases(5), exhaustive=True),
+                Part("multicast-int-and-str-types", "enum", _multicast_cases, exhaustive=True),
                 Part("write-after-earlier-messages", "enum", _after_earlier_messages, exhaustive=True),
                 Part("fragments-after-config-history-depth3", "enum", _history_cases(3), exhaustive=True),
                 Part("fragments-direct-all-lengths", "enum", _frag_cases(False, 2), exhaustive=True),
                 Part("fragments-line-all-lengths", "enum", _frag_cases(True, 1), exhaustive=True)]
     return [Part("headers", "gen", _hdr_strategy, n=200000),
             Part("fragment-attempts-lost-sweep", "enum", _loss_cases(1), exhaustive=True),
+            Part("multicast-int-and-str-types", "enum", _multicast_cases, exhaustive=True),
             Part("write-after-earlier-messages", "enum", _after_earlier_messages, exhaustive=True),
             Part("fragments-after-config-history-depth5", "enum", _history_cases(5), exhaustive=True),
             Part("fragments-direct-all-lengths", "enum", _frag_cases(False, 40), exhaustive=True),
